@@ -13,6 +13,7 @@
 -/
 import Bebop.Props.C01
 import Bebop.Proofs.FuelMono
+import Bebop.Proofs.StreamFuelMono
 
 namespace Bebop
 
@@ -54,6 +55,21 @@ theorem C07_more_fuel_same_answer (env : Env) (f g : Nat) (hfg : f ≤ g) (safe 
 example : (unmarshal 3 exEnv true 3 [255, 255, 255, 255, 2, 0, 0, 0, 0, 2, 255, 255, 255, 127]).isFuel = true := by
   decide
 example : (unmarshal 20 exEnv true 3 [255, 255, 255, 255, 2, 0, 0, 0, 0, 2, 255, 255, 255, 127]).isFuel = false := by
+  decide
+
+/-- The same for the stream decoder (`DecodeBebop`): the model's fuel never changes an answer — a value with
+    the bytes consumed, or an error with the bytes consumed — other than out-of-fuel. -/
+theorem C07_stream_answer_independent_of_fuel (env : Env) (f g : Nat) (n : Nat) (data : List Byte)
+    (hf : (decodeStream f env n data).isFuel = false) (hg : (decodeStream g env n data).isFuel = false) :
+    decodeStream f env n data = decodeStream g env n data := by
+  rcases Nat.le_total f g with h | h
+  · exact (decodeStream_fuel_mono env f g h n data hf).symm
+  · exact decodeStream_fuel_mono env g f h n data hg
+
+/-- Non-vacuity: the stream decoder answers the hostile buffer at fuel 20, not at fuel 1. -/
+example : (decodeStream 20 exEnv 3 [255, 255, 255, 255, 2, 0, 0, 0, 0, 2, 255, 255, 255, 127]).isFuel = false := by
+  decide
+example : (decodeStream 1 exEnv 3 [255, 255, 255, 255, 2, 0, 0, 0, 0, 2, 255, 255, 255, 127]).isFuel = true := by
   decide
 
 /-- The unchecked variant is exempt; and it really does panic, e.g. on the empty buffer. -/
